@@ -21,7 +21,7 @@ def blob_cases(rng, count, sizes):
         axis = rng.choice("xy")
         n = rng.choice(sizes)
         it = rng.choice([2, 3, 4])
-        fam = rng.choice(["frac", "affine", "smooth", "wholerow"])
+        fam = rng.choice(["frac", "affine", "smooth", "wholerow", "mixed"])
         off = C.offset_family(rng, n, 1, fam, rng.choice([0.9, 2.5]))
         ix, iy = rng.randint(5, n - 7), rng.randint(5, n - 7)
         fx, fy = f32(rng.random()), f32(rng.random())
